@@ -74,13 +74,24 @@ def make_ctx(vt, inst, f):
             lb = rep[1] if rep[0] == "lane" else (1 if rep[0] == "bool" else 1)
             argspecs.append((bits, 1 if rep[0] != "lane" else rep[1], None))
         elif kind == "LL8":
-            t = T.zext(T.arg(k, 0, 8), bits)
             B = vt.eb
+            t = T.zext(T.arg(k, 0, B.bit_length()), bits)   # 0 <= s < 2*bits
             argspecs.append((bits, bits, (lambda v, B=B: v % (B + 1))))
         elif kind == "BA":
             t = T.arg(k, 0, bits)
             c.boolmem.append(k)
             argspecs.append((bits, 0, None))
+        elif kind == "VA":
+            # per-lane shift amounts: precondition 0 <= amount <= bits in every lane.
+            # encoded as zext of the low 8 bits (superset) ; witnesses stay in [0,bits]
+            eb = vt.eb
+            t = T.concat([T.zext(T.arg(k, i * eb, min(eb.bit_length(), eb)), eb) for i in range(vt.n)])
+            def dom(v, eb=eb, n=vt.n):
+                r = 0
+                for i in range(n):
+                    r |= (((v >> (i * eb)) & ((1 << eb) - 1)) % (eb + 1)) << (i * eb)
+                return r
+            argspecs.append((bits, eb, dom))
         elif kind in ("V", "VI"):
             t = T.arg(k, 0, bits)
             argspecs.append((bits, vt.eb if kind == "V" else (bits // vt.n), None))
